@@ -497,7 +497,7 @@ pub fn c20(run: &mut Run) {
     let _ = std::fs::remove_file(&cases_file);
     let _ = std::fs::remove_file(&out_file);
     let _ = std::fs::remove_file(format!("{}.stats.json", out_file.display()));
-    crate::fuzzdrv::campaign(run, "fz_c20", 12_800_000);
+    crate::fuzzdrv::campaign(run, "fz_c20", 38_400_000);
 }
 
 #[allow(dead_code)]
